@@ -11,9 +11,11 @@ package c01
 
 import (
 	"context"
+	"errors"
 	"fmt"
 	"math"
 	"math/rand"
+	"net"
 	"runtime"
 	"sort"
 	"strconv"
@@ -30,6 +32,7 @@ import (
 	"github.com/atlassian/gostatsd"
 	"github.com/atlassian/gostatsd/pkg/stats"
 	"github.com/atlassian/gostatsd/pkg/statsd"
+	"github.com/atlassian/gostatsd/pkg/transport"
 
 	"verif/mon"
 	"verif/ref"
@@ -46,6 +49,12 @@ type config struct {
 	Namespace string `json:"namespace"`
 	Expiry    string `json:"expiry"`
 	Bursty    bool   `json:"bursty"`
+	// Mode "pipeline" wires the stages by hand on a mock clock; "server" runs the real statsd.Server
+	// (RunWithCustomSocket: receiver, parser, tag stage, backend handler, flusher exactly as wired in
+	// production) on a scripted PacketConn with a real 3 ms flush interval.
+	Mode      string `json:"mode"`
+	Readers   int    `json:"readers,omitempty"`
+	RecvBatch int    `json:"receive_batch,omitempty"`
 }
 
 // spyStatser counts flush notifications and accumulates Report()ed counters.
@@ -88,10 +97,11 @@ type capture struct {
 }
 
 type captureBackend struct {
-	r   *mon.Run
-	spy *spyStatser
-	mu  sync.Mutex
-	all []capture
+	r       *mon.Run
+	spy     *spyStatser
+	workers int // server mode: no spy statser; flushes are sequential, so every W consecutive maps are one flush
+	mu      sync.Mutex
+	all     []capture
 }
 
 func (b *captureBackend) Name() string { return "capture" }
@@ -100,8 +110,13 @@ func (b *captureBackend) SendEvent(ctx context.Context, e *gostatsd.Event) error
 }
 func (b *captureBackend) SendMetricsAsync(ctx context.Context, mm *gostatsd.MetricMap, cb gostatsd.SendCallback) {
 	// The copy must be synchronous: the aggregator resets the map as soon as this returns.
-	c := capture{flush: b.spy.flushes.Load(), stamp: b.r.Stamp(), series: ref.FromMap(mm)}
+	c := capture{stamp: b.r.Stamp(), series: ref.FromMap(mm)}
 	b.mu.Lock()
+	if b.spy != nil {
+		c.flush = b.spy.flushes.Load()
+	} else {
+		c.flush = int64(len(b.all) / b.workers)
+	}
 	b.all = append(b.all, c)
 	b.mu.Unlock()
 	go cb(nil)
@@ -154,6 +169,10 @@ func fmtRate(v float64) string { return strings.TrimRight(strings.TrimRight(fmt.
 
 // generator pushes cfg.Batches batches of datagrams into in and returns what it sent.
 func generator(g int, cfg config, rng *rand.Rand, in chan<- []*statsd.Datagram, tsBase int64, tsCounter *atomic.Int64, idCounter *atomic.Int64) *expect {
+	return generatorTo(g, cfg, rng, func(batch []*statsd.Datagram) { in <- batch }, tsBase, tsCounter, idCounter)
+}
+
+func generatorTo(g int, cfg config, rng *rand.Rand, emit func([]*statsd.Datagram), tsBase int64, tsCounter *atomic.Int64, idCounter *atomic.Int64) *expect {
 	ex := newExpect()
 	for b := 0; b < cfg.Batches; b++ {
 		ndg := 1 + rng.Intn(4)
@@ -245,7 +264,7 @@ func generator(g int, cfg config, rng *rand.Rand, in chan<- []*statsd.Datagram, 
 				},
 			})
 		}
-		in <- batch
+		emit(batch)
 		if cfg.Bursty {
 			switch rng.Intn(6) {
 			case 0:
@@ -654,6 +673,155 @@ func runExecution(t *testing.T, r *mon.Run, cfg config) {
 	}
 }
 
+
+// ---------------------------------------------------------------------------------------------
+// server mode: the real statsd.Server on a scripted socket
+
+type pkt struct {
+	data []byte
+	addr net.Addr
+}
+
+type scriptConn struct {
+	ch     chan pkt
+	closed chan struct{}
+	once   sync.Once
+	read   atomic.Int64
+}
+
+func (c *scriptConn) ReadFrom(b []byte) (int, net.Addr, error) {
+	select {
+	case p := <-c.ch:
+		n := copy(b, p.data)
+		c.read.Add(1)
+		return n, p.addr, nil
+	case <-c.closed:
+		return 0, nil, errors.New("use of closed network connection")
+	}
+}
+func (c *scriptConn) WriteTo(b []byte, addr net.Addr) (int, error) { return len(b), nil }
+func (c *scriptConn) Close() error                                { c.once.Do(func() { close(c.closed) }); return nil }
+func (c *scriptConn) LocalAddr() net.Addr                         { return &net.UDPAddr{IP: net.IPv4(127, 0, 0, 1), Port: 8125} }
+func (c *scriptConn) SetDeadline(time.Time) error                 { return nil }
+func (c *scriptConn) SetReadDeadline(time.Time) error             { return nil }
+func (c *scriptConn) SetWriteDeadline(time.Time) error            { return nil }
+
+func runServerExecution(t *testing.T, r *mon.Run, cfg config) {
+	r.Case("server execution %+v", cfg)
+	logrus.SetLevel(logrus.PanicLevel)
+	be := &captureBackend{r: r, workers: cfg.Workers}
+	var expC, expG, expS, expT time.Duration
+	switch cfg.Expiry {
+	case "never":
+	case "immediate":
+		expC, expG, expS, expT = -1, -1, -1, -1
+	default:
+		expC, expG, expS, expT = time.Hour, time.Hour, time.Hour, time.Hour
+	}
+	v := viper.New()
+	srv := &statsd.Server{
+		Backends: []gostatsd.Backend{be}, ExpiryIntervalCounter: expC, ExpiryIntervalGauge: expG, ExpiryIntervalSet: expS, ExpiryIntervalTimer: expT,
+		FlushInterval: 3 * time.Millisecond, MaxReaders: cfg.Readers, MaxParsers: cfg.Parsers, MaxWorkers: cfg.Workers, MaxQueueSize: cfg.Queue,
+		MaxConcurrentEvents: 4, ReceiveBatchSize: cfg.RecvBatch, Namespace: cfg.Namespace, StatserType: gostatsd.StatserNull, PercentThreshold: []float64{90},
+		HistogramLimit: 10, ServerMode: "standalone", DisableInternalEvents: true, Viper: v, TransportPool: transport.NewTransportPool(logrus.StandardLogger(), v),
+	}
+	conn := &scriptConn{ch: make(chan pkt), closed: make(chan struct{})}
+	ctx, cancel := context.WithCancel(context.Background())
+	done := make(chan error, 1)
+	go func() { done <- srv.RunWithCustomSocket(ctx, func() (net.PacketConn, error) { return conn, nil }) }()
+
+	tsBase := time.Now().UnixNano()
+	var tsCounter, idCounter atomic.Int64
+	idCounter.Store(int64(cfg.Exec) << 32 % (1 << 50))
+	exps := make([]*expect, cfg.Gens)
+	var sent atomic.Int64
+	var gwg sync.WaitGroup
+	for g := 0; g < cfg.Gens; g++ {
+		gwg.Add(1)
+		go func(g int) {
+			defer gwg.Done()
+			emit := func(batch []*statsd.Datagram) {
+				for _, dg := range batch {
+					conn.ch <- pkt{data: dg.Msg, addr: &net.UDPAddr{IP: net.ParseIP(string(dg.IP)), Port: 1000 + g}}
+					sent.Add(1)
+				}
+			}
+			exps[g] = generatorTo(g, cfg, r.Rand(fmt.Sprintf("exec%d-gen%d", cfg.Exec, g)), emit, tsBase, &tsCounter, &idCounter)
+		}(g)
+	}
+	gwg.Wait()
+	want := newExpect()
+	for _, e := range exps {
+		merge(want, e)
+	}
+	// every datagram has been read by a receiver goroutine (the channel is unbuffered); now the flusher's own
+	// real-time ticks must bring everything out. 60 s is a watchdog four orders of magnitude above the flush interval.
+	var tot *totals
+	ok := mon.WaitUntil(60*time.Second, func() bool {
+		tot = analyse(be.snapshot(), want)
+		return complete(tot, want)
+	})
+	// a few more flushes: nothing may arrive late or twice
+	n0 := len(be.snapshot())
+	mon.WaitUntil(30*time.Second, func() bool { return len(be.snapshot()) >= n0+3*cfg.Workers })
+	caps := be.snapshot()
+	tot = analyse(caps, want)
+	cancel()
+	select {
+	case <-done:
+	case <-time.After(60 * time.Second):
+		r.Inconclusive("server-did-not-stop")
+	}
+	report := func(sig, detail string) {
+		r.Violation(sig, detail+fmt.Sprintf(" [config %+v, %d flush maps, %d lines]", cfg, len(caps), want.lines), cfg)
+	}
+	for _, p := range tot.problems {
+		report(strings.SplitN(p, ":", 2)[0], p)
+	}
+	if !ok || !complete(tot, want) {
+		for k, v := range want.counters {
+			if tot.counters[k] != v {
+				report("counter-sum", fmt.Sprintf("counter %q: sum over all flushes %d, expected sum of trunc(value/rate) %d (60 s after the last datagram was read)", k, tot.counters[k], v))
+				break
+			}
+		}
+		wantIDs, wantMembers := 0, 0
+		for _, m := range want.timerIDs {
+			wantIDs += len(m)
+		}
+		for _, m := range want.members {
+			wantMembers += len(m)
+		}
+		if tot.ids != wantIDs {
+			report("timer-multiset", fmt.Sprintf("%d distinct timer values reported over all flushes, %d sent", tot.ids, wantIDs))
+		}
+		if tot.members != wantMembers {
+			report("set-members", fmt.Sprintf("%d distinct set members reported over all flushes, %d sent", tot.members, wantMembers))
+		}
+	}
+	for k := range want.timerIDs {
+		if tot.sampled[k] != want.sampled[k] {
+			report("timer-sampled-count", fmt.Sprintf("timer %q: sampled counts sum to %v, sum of 1/rate is %v", k, tot.sampled[k], want.sampled[k]))
+			break
+		}
+	}
+	multi := 0
+	for _, n := range tot.spread {
+		if n >= 2 {
+			multi++
+		}
+	}
+	r.Eval(1)
+	r.Event("server_mode_executions", 1)
+	r.Event("flush_maps", len(caps))
+	r.Event("datapoints", want.lines)
+	r.Event("datagrams_through_receiver", int(sent.Load()))
+	r.Event("series_in_2+_flushes", multi)
+	if multi >= 1 {
+		r.Nontrivial(fmt.Sprintf("server R%d P%d W%d Q%d G%d B%d %s %s", cfg.Readers, cfg.Parsers, cfg.Workers, cfg.Queue, cfg.Gens, cfg.RecvBatch, cfg.Namespace, cfg.Expiry))
+	}
+}
+
 func TestCheck(t *testing.T) {
 	r := mon.Start(t, "C01")
 	defer r.Finish()
@@ -662,7 +830,11 @@ func TestCheck(t *testing.T) {
 	r.Assume("a batch queued for a worker survives a flush command with probability <= 1/2, so 200 quiescent flushes drain every queue")
 	var c config
 	if p := r.ReplayPayload(); p != nil && mon.ReplayCase(p, &c) != nil {
-		runExecution(t, r, c)
+		if c.Mode == "server" {
+			runServerExecution(t, r, c)
+		} else {
+			runExecution(t, r, c)
+		}
 		r.Nontrivial("replay-a")
 		r.Nontrivial("replay-b")
 		return
@@ -688,7 +860,13 @@ func TestCheck(t *testing.T) {
 			Expiry:    []string{"never", "immediate", "1h"}[rng.Intn(3)],
 			Bursty:    rng.Intn(2) == 0,
 		}
-		runExecution(t, r, cfg)
+		if i%3 == 2 {
+			cfg.Mode, cfg.Readers, cfg.RecvBatch = "server", 1+rng.Intn(4), []int{1, 2, 10, 50}[rng.Intn(4)]
+			runServerExecution(t, r, cfg)
+		} else {
+			cfg.Mode = "pipeline"
+			runExecution(t, r, cfg)
+		}
 		if r.Violations() > 8 {
 			break
 		}
